@@ -158,6 +158,11 @@ func iterateMedia(context *Context, v reflect.Value) {
 }
 
 func iterateNode(context *Context, v reflect.Value) {
+	// A node can be among its own children (the slice is shared by the copy),
+	// which no reference lookup notices.
+	context.enterNested()
+	defer context.leaveNested()
+
 	context.EventReceiver.OnNode()
 	iterateInterface(context, v.Field(types.NodeFieldIndexValue))
 	children := v.Field(types.NodeFieldIndexChildren)
